@@ -1283,6 +1283,13 @@ pub fn parent_main(args: &Args, mode: Mode) -> ! {
         }
         Mode::C05 => {
             ev.extra.insert("deferred_to_C06".into(), json!(deferred));
+            if let Ok(path) = std::env::var("VERIF_C05T_SUMMARY") {
+                if let Ok(text) = std::fs::read_to_string(&path) {
+                    if let Ok(v) = serde_json::from_str::<Value>(&text) {
+                        ev.extra.insert("t_flavour_pass".into(), v);
+                    }
+                }
+            }
         }
         Mode::C06 => {
             if let Ok(path) = std::env::var("VERIF_C06T_SUMMARY") {
